@@ -2,6 +2,7 @@ SPECIFICATION MCSpec
 CONSTANTS Dropped = {"distributed_validators[].builder_registration.message.fee_recipient"}
  WriteOrder = "node"
  MaxN = 3
+ FortVers = {11}
  Thresholds = "default"
 INVARIANTS TamperEvident
 CHECK_DEADLOCK FALSE
